@@ -33,6 +33,35 @@ type C18Case struct {
 	Debug   bool   `json:"debug"`
 	Shape   string `json:"request_shape"`
 	Field   string `json:"scaled_field"`
+	Flavor  string `json:"flavor"` // letter case / padding of the scaled content: lower | mixed | upper | padded
+}
+
+var c18Flavors = []string{"lower", "mixed", "upper", "padded"}
+
+// flavour rewrites the scaled content: an implementation may only allocate
+// for content that is not already in its preferred form.
+func flavour(s, fl string) string {
+	switch fl {
+	case "mixed":
+		b := []byte(s)
+		up := true
+		for i, c := range b {
+			if c >= 'a' && c <= 'z' {
+				if up {
+					b[i] = c - 32
+				}
+				up = false
+			} else {
+				up = true
+			}
+		}
+		return string(b)
+	case "upper":
+		return strings.ToUpper(s)
+	case "padded":
+		return strings.ReplaceAll(s, ",", " ,\t")
+	}
+	return s
 }
 
 var c18Sizes = []int{1, 100, 10_000, 1_000_000}
@@ -48,7 +77,7 @@ func c18Scales(field string) []int {
 
 // c18Request builds the request of the given shape with the given field
 // scaled to n (bytes or elements). Built in linear time.
-func c18Request(shape, field string, n int) *http.Request {
+func c18Request(shape, field, fl string, n int) *http.Request {
 	origin := "https://example.com"
 	method := "GET"
 	h := http.Header{}
@@ -78,8 +107,8 @@ func c18Request(shape, field string, n int) *http.Request {
 	switch field {
 	case "origin-length":
 		if _, ok := h[hOrigin]; ok {
-			h[hOrigin] = []string{"https://" + strings.Repeat("a", n) + ".example.com"}
-			if shape == "actual-get-allowed" || shape == "preflight-ok" {
+			h[hOrigin] = []string{"https://" + flavour(strings.Repeat("a", n), fl) + ".example.com"}
+			if (shape == "actual-get-allowed" || shape == "preflight-ok") && fl == "lower" {
 				// keep it allowed where a short value exists: sub-label of the wildcard pattern (up to the host limit)
 				if n <= 200 {
 					h[hOrigin] = []string{"https://" + strings.Repeat("a", min(n, 63)) + ".example.com"}
@@ -95,28 +124,28 @@ func c18Request(shape, field string, n int) *http.Request {
 			h[hOrigin] = vs
 		}
 	case "acrm-length":
-		if pre {
-			h[hACRM] = []string{strings.Repeat("M", n)}
-		} else {
-			h[hACRM] = []string{strings.Repeat("M", n)} // ignored on non-preflight paths, still attacker-controlled
+		unit := "M"
+		if fl == "lower" || fl == "mixed" {
+			unit = "m"
 		}
+		h[hACRM] = []string{flavour(strings.Repeat(unit, n), fl)} // ignored on non-preflight paths, still attacker-controlled
 	case "acrh-line-length":
 		// a long list of allowed names (each repeated: rejected by the ordering rule, reflected by * configurations)
-		h[hACRH] = []string{strings.Repeat("x-bar,", n/6+1) + "x-foo"}
+		h[hACRH] = []string{flavour(strings.Repeat("x-bar,", n/6+1)+"x-foo", fl)}
 	case "acrh-junk-length":
-		h[hACRH] = []string{strings.Repeat("a", n)}
+		h[hACRH] = []string{flavour(strings.Repeat("a", n), fl)}
 	case "acrh-elements":
-		h[hACRH] = []string{strings.Repeat("x-foo,", n-1) + "x-foo"}
+		h[hACRH] = []string{flavour(strings.Repeat("x-foo,", n-1)+"x-foo", fl)}
 	case "acrh-empty-elements":
-		h[hACRH] = []string{strings.Repeat(",", n) + "x-foo"}
+		h[hACRH] = []string{flavour(strings.Repeat(",", n)+"x-foo", fl)}
 	case "acrh-lines":
 		vs := make([]string, n)
 		for i := range vs {
-			vs[i] = "x-foo"
+			vs[i] = flavour("x-foo", fl)
 		}
 		h[hACRH] = vs
 	case "acrh-ows":
-		h[hACRH] = []string{"x-bar," + strings.Repeat(" ", n) + "x-foo"}
+		h[hACRH] = []string{flavour("x-bar,", fl) + strings.Repeat(" ", n) + flavour("x-foo", fl)}
 	}
 	return &http.Request{Method: method, URL: rootURL, Header: h, Proto: "HTTP/1.1", ProtoMajor: 1, ProtoMinor: 1, Host: "server.example"}
 }
@@ -135,7 +164,7 @@ var noopHandler = http.HandlerFunc(func(http.ResponseWriter, *http.Request) {})
 const c18Bound = 8
 
 func c18Gen(t *rapid.T) C18Case {
-	return C18Case{CfgKind: pick(t, "cfg", c18CfgKinds), Debug: chance(t, "debug", 50), Shape: pick(t, "shape", c18Shapes), Field: pick(t, "field", c18Fields)}
+	return C18Case{CfgKind: pick(t, "cfg", c18CfgKinds), Debug: chance(t, "debug", 50), Shape: pick(t, "shape", c18Shapes), Field: pick(t, "field", c18Fields), Flavor: pick(t, "flavor", c18Flavors)}
 }
 
 func c18Check(c C18Case, rec *Recorder) *Disc {
@@ -152,25 +181,25 @@ func c18Check(c C18Case, rec *Recorder) *Disc {
 	scales := c18Scales(c.Field)
 	allocs := make([]float64, len(scales))
 	for i, n := range scales {
-		r := c18Request(c.Shape, c.Field, n)
+		r := c18Request(c.Shape, c.Field, c.Flavor, n)
 		allocs[i] = testing.AllocsPerRun(10, func() {
 			clear(w.h)
 			h.ServeHTTP(w, r)
 		})
 		rec.Eval(1)
 		if n >= 10_000 {
-			rec.NonTrivial(c.CfgKind, fmt.Sprint(c.Debug), c.Shape, c.Field, fmt.Sprint(n))
+			rec.NonTrivial(c.CfgKind, fmt.Sprint(c.Debug), c.Shape, c.Field, c.Flavor, fmt.Sprint(n))
 		}
 	}
 	rec.Class("field:" + c.Field)
 	rec.Class(fmt.Sprintf("allocs-at-largest:%d", int(allocs[len(allocs)-1])))
 	for i, a := range allocs {
 		if a > c18Bound {
-			return discf("config %s debug=%v shape %s: %v heap allocations per request with %s scaled to %d (bound %d); allocations by scale %v: %v", c.CfgKind, c.Debug, c.Shape, a, c.Field, scales[i], c18Bound, scales, allocs)
+			return discf("config %s debug=%v shape %s flavour %s: %v heap allocations per request with %s scaled to %d (bound %d); allocations by scale %v: %v", c.CfgKind, c.Debug, c.Shape, c.Flavor, a, c.Field, scales[i], c18Bound, scales, allocs)
 		}
 	}
 	if allocs[len(allocs)-1] > allocs[0] {
-		return discf("config %s debug=%v shape %s: allocations grow with %s: %v at scales %v", c.CfgKind, c.Debug, c.Shape, c.Field, allocs, scales)
+		return discf("config %s debug=%v shape %s flavour %s: allocations grow with %s: %v at scales %v", c.CfgKind, c.Debug, c.Shape, c.Flavor, c.Field, allocs, scales)
 	}
 	return nil
 }
@@ -178,9 +207,9 @@ func c18Check(c C18Case, rec *Recorder) *Disc {
 func TestC18(t *testing.T) {
 	Prop[C18Case]{ID: "C18", Gen: c18Gen, Check: c18Check,
 		Rule: "generator: configuration kind in {allow-all, discrete, discrete+credentialed+PNA, * headers anonymous with/without Authorization, * headers credentialed, no headers configured, no-cors-only PNA} x debug x request shape in {actual allowed/disallowed, actual OPTIONS, non-CORS, preflight succeeding / failing at origin, ACRPN, method, headers} " +
-			"x scaled field in {Origin length, Origin value count, ACRM length, ACRH line length (valid names), ACRH junk length, ACRH element count, ACRH empty-element count, ACRH line count, OWS run} x 4 scales (1 B..1 MiB or 1..100 000 elements). " +
+			"x scaled field in {Origin length, Origin value count, ACRM length, ACRH line length (valid names), ACRH junk length, ACRH element count, ACRH empty-element count, ACRH line count, OWS run} x content flavour in {lower case, Mixed-Case, UPPER CASE, OWS-padded} x 4 scales (1 B..1 MiB or 1..100 000 elements). " +
 			"Oracle: testing.AllocsPerRun (10 runs, GOMAXPROCS 1, reused request, reused and cleared header map, no-op handler, race detector off) <= 8 at every scale and not larger at the largest scale than at the smallest. " +
-			"evaluations = measured cells; non-trivial = cell with scale >= 10 KiB / 10 000 elements; distinct by (config kind, debug, shape, field, scale).",
+			"evaluations = measured cells; non-trivial = cell with scale >= 10 KiB / 10 000 elements; distinct by (config kind, debug, shape, field, flavour, scale).",
 		Assumptions: []string{"only the allocation COUNT is judged, as the property says; a change that allocates O(n) bytes in O(1) allocations is not flagged",
 			"the response writer's header map is reused across runs, so allocations of net/http itself are not counted"}}.Run(t)
 }
@@ -188,19 +217,21 @@ func TestC18(t *testing.T) {
 // TestC18Grid runs the full grid (thorough tier).
 func TestC18Grid(t *testing.T) {
 	rec := NewRecorder("C18", "grid")
-	rule := "full grid: every configuration kind x debug x request shape x scaled field x 4 scales (exhaustive over the finite grid of the rapid part)"
+	rule := "full grid: every configuration kind x debug x request shape x scaled field x content flavour x 4 scales (exhaustive over the finite grid of the rapid part)"
 	defer func() { rec.Flush(rule, nil, 0) }()
 	for _, ck := range c18CfgKinds {
 		for _, dbg := range []bool{false, true} {
 			for _, sh := range c18Shapes {
 				for _, f := range c18Fields {
-					c := C18Case{CfgKind: ck, Debug: dbg, Shape: sh, Field: f}
-					rec.Case(c)
-					if d := safely(func() *Disc { return c18Check(c, rec) }); d != nil {
-						rec.violation++
-						path := writeReplay("C18", "rapid", c, d)
-						reportViolation("C18", path, d)
-						t.FailNow()
+					for _, fl := range c18Flavors {
+						c := C18Case{CfgKind: ck, Debug: dbg, Shape: sh, Field: f, Flavor: fl}
+						rec.Case(c)
+						if d := safely(func() *Disc { return c18Check(c, rec) }); d != nil {
+							rec.violation++
+							path := writeReplay("C18", "rapid", c, d)
+							reportViolation("C18", path, d)
+							t.FailNow()
+						}
 					}
 				}
 			}
